@@ -53,14 +53,17 @@ structure WOut where
   perOp : List Nat
   z : Nat
 
+/-- the string APIs of `TOutputProtocol`.  `r` is the pair `write_i32(len)` + `write_bytes_without_len` (binary family; what emitted
+code uses for retained chunks): it takes the zero-copy branch exactly as `write_bytes` does.  `s` is `write_string(&str)`: it never
+takes the zero-copy branch, like `write_bytes_vec`. -/
 def apiOf : String → Option Linked.StrApi
-  | "b" => some .bytes | "v" => some .vec | "f" => some .faststr | _ => none
+  | "b" => some .bytes | "v" => some .vec | "f" => some .faststr | "r" => some .bytes | "s" => some .vec | _ => none
 
 def writeAll (p : Proto) (buf : String) (api : Linked.StrApi) (vals : List TVal) : Out WOut :=
   let ops := vals.flatMap TVal.ops
   match writeOps p ops with
   | .ok per =>
-    if buf == "bm" then
+    if buf == "bm" || buf == "bm1" then      -- bm1: BytesMut with the protocol's zero_copy flag set (no effect on this buffer kind)
       .ok { bytes := per.flatten, perOp := if p == .ubin then [] else per.map List.length, z := 0 }
     else
       let zc := buf == "lb1"
@@ -124,6 +127,15 @@ def answer (items : List Sexp) : Option String := do
         match e with
         | some c => pure s!"{c} {hexOrDash w.bytes} after={outs.length}"
         | none => pure s!"ok {hexOrDash w.bytes} | {" ".intercalate outs} | rem={s.bs.length}"
+    | o => pure o.cls
+  | "lz" =>
+    -- the size as the writer itself reports it: its own length machine, either zero_copy flag, the `*_len` twin of any string API
+    -- (none of which changes the number: the model has one length machine per wire format)
+    let p ← items[1]? >>= Sexp.asAtom >>= Proto.of
+    let _ ← items[3]? >>= Sexp.asAtom >>= apiOf
+    let vals ← (items.drop 4).mapM TVal.ofSexp
+    match lenOps p (vals.flatMap TVal.ops) with
+    | .ok ns => pure s!"ok {ns.sum} {csv ns}"
     | o => pure o.cls
   | "l" =>
     let p ← items[1]? >>= Sexp.asAtom >>= Proto.of
